@@ -55,7 +55,7 @@ from ._deprecated import ParserDeprecations, deprecated_skip_check
 from ._formatters import DefaultHelpFormatter, empty_help, get_env_var
 from ._jsonnet import ActionJsonnet
 from ._jsonschema import ActionJsonSchema
-from ._link_arguments import ActionLink, ArgumentLinking
+from ._link_arguments import ActionLink, ArgumentLinking, skip_apply_links
 from ._loaders_dumpers import (
     check_valid_dump_format,
     dump_using_format,
@@ -550,7 +550,11 @@ class ArgumentParser(ParserDeprecations, ActionsContainer, ArgumentLinking, argp
                     cfg[action.dest] = subcommand = self._check_value_key(action, env_val, action.dest, cfg)
                     # only what the environment gives: the subcommand's defaults are merged underneath later on
                     # (handle_subcommands); copying them here would override default config files and the env config
-                    pcfg = action._name_parser_map[env_val].parse_env(env=env, defaults=False, _skip_validation=True)
+                    # (parsing links of the subcommand are applied later as well, once its defaults are there)
+                    with skip_apply_links():
+                        pcfg = action._name_parser_map[env_val].parse_env(
+                            env=env, defaults=False, _skip_validation=True
+                        )
                     cfg.update(pcfg, subcommand)
         for action in actions:
             env_var = get_env_var(self, action)
